@@ -60,18 +60,33 @@ def plan(tier, ctx):
                                  hdefines=["DICT_LEN=%d" % n, "MASK=%d" % mask], unwind=max(10, min(mask, 64) + 3),
                                  unwindset=["harness.2:%d" % (mask + 2), "harness.3:%d" % (mask + 2)], witness=core),
                             core=core, family="hash_base", weight=2))
+    # ---- (a) match-finder candidate filter / position arithmetic (constant-hash abstraction) -------------
+    MU = [u for u in IGZIP_UNITS if u != "igzip/igzip_base.c"] + ["igzip/igzip.c"]
+    for kern, tag in ((("", "finish"),) if quick else (("", "finish"), ("H_BODY", "body"))):
+        for ai in ([8] if quick else ([4, 5, 8, 9, 12] if not kern else [292])):
+            core = ai == 8
+            qs.append(Query("match_%s/avail%d" % (tag, ai), R,
+                            dict(harness="harness/C17/h_match.c", units=MU, defines=FAST, hdefines=["AVAIL_IN=%d" % ai] + ([kern] if kern else []),
+                                 unwind=max(10, ai + 2),
+                                 unwindset=["harness.0:31", "harness.1:31", "harness.2:3", "harness.3:258", "harness.4:259",
+                                            "harness.5:259", "compare258.0:%d" % (min(ai, 258) // 8 + 2)],
+                                 witness=core, timeout=(600 if quick else 2400)), core=core, family="match_" + tag, weight=20))
     return Plan(
         "C17", "model_checking", qs,
         functions_encoded=["set_dist_mask", "_zlib_header_in_buffer", "isal_deflate_stateless (zlib header path, empty input)",
                            "isal_deflate_set_dict", "isal_deflate_reset_dict", "check_level_req", "isal_deflate_process_dict",
-                           "isal_inflate_set_dict", "isal_deflate_hash_base"],
+                           "isal_inflate_set_dict", "isal_deflate_hash_base",
+                           "isal_deflate_finish_base (+ compare258, get_len_code, get_dist_code, compute_dist_code, update_state; "
+                           "isal_deflate_body_base thorough) with loads/hash/bit emission abstracted"],
         bounds={
             "zlib header": "hist_bits all 2^16 values, level all 2^32 values (unit); hist_bits symbolic, level 0, empty input (API)",
             "dictionary calls": "dict_len SYMBOLIC 0..70000 with the payload copy recorded (src/dst/len) instead of performed, plus "
                                 "concrete lengths 0,1,5 (thorough 0..5,8,16) with the real memcpy and byte comparison; every scalar "
                                 "field of the stream (state over the whole enum, b_bytes_*, level, level_buf NULL/non-NULL, "
-                                "level_buf_size, has_hist, ...) and of struct isal_dict arbitrary; reset_dict per level 0..3 with a "
+                                "level_buf_size, has_hist, ...) and of struct isal_dict (process_dict: arbitrary previous contents of the OUTPUT struct incl. level > 3) arbitrary; reset_dict per level 0..3 with a "
                                 "level buffer object of exactly ISAL_DEF_LVLn_MIN bytes, and level > 3",
+            "match finder (a)": "avail_in 8 quick (4,5,8,9,12 thorough; body kernel 292 thorough); stream position total_in symbolic "
+                                "0..40000; hist_bits symbolic 9..15; head slot = any earlier position; every loaded value arbitrary",
             "isal_deflate_hash_base": "dict_len 0..8, hash_mask 15 (63), current_index all 2^32, dictionary bytes arbitrary",
         },
         stubs=["memcpy (symbolic-length flavours, CBMC only): records (dst, src, n) after asserting r_ok/w_ok of both ranges, moves no bytes",
@@ -79,17 +94,17 @@ def plan(tier, ctx):
                "isal_deflate_hash_base is checked separately",
                "hash function in the hash_base harness: arbitrary 32-bit value per call (huffman.h's __SSE4_2__ variant of compute_hash with "
                "the intrinsic _mm_crc32_u32 supplied by the harness) - sound for any hash function",
+               "match finder (a): load_le_u32/load_le_u64 -> arbitrary value per call (after asserting the bytes lie inside the stream); "
+               "write_bits -> observation point decoding (length, distance symbol, extra bits) from an identity Huffman table, emits nothing; "
+               "compute_hash -> CONSTANT (single head slot with arbitrary initial content); the arbitrary-hash variant is out of reach "
+               "(OOM 12-16 GB: every symbolic-index head[] update re-encodes the 82 KB struct isal_zstream)",
                "include guards _X86INTRIN_H_INCLUDED/_IMMINTRIN_H_INCLUDED predefined (build speed only)"],
-        assumptions=["isal_deflate_process_dict: the OUTPUT structure's `level` field is <= 3 on entry - the function reads it "
-                     "(`dict->level > ISAL_DEF_MAX_LEVEL` => ISAL_INVALID_STATE) before writing it; with an uninitialised struct isal_dict "
-                     "(as igzip_file_perf.c / igzip_rand_test.c pass) the call can be refused spuriously: SUSPECTED DEFECT, flavour "
-                     "-DPROCESS_UNINIT of harness/C17/h_dict.c shows it",
-                     "reset_dict: level_buf_size does not exceed the size of the object level_buf points to",
+        assumptions=["reset_dict: level_buf_size does not exceed the size of the object level_buf points to",
                      "big member arrays (buffer[], head[], history) are zero except one arbitrary element each (the observed one)",
                      "RFC 1950 CMF/FLG layout as written in the harness"],
-        outside=["(a) distances emitted by the match finders (isal_deflate_body/finish_base, ICF finders, gen_icf_map_h1_base): not "
-                 "attempted in this round - measured out of reach three times in round 0 (DESIGN C17); C17 therefore says nothing about "
-                 "emitted distances",
+        outside=["(a) is decided only under the constant-hash abstraction, for isal_deflate_finish_base (quick) and isal_deflate_body_base "
+                 "(thorough), level 0: interactions between different hash slots, the ICF finders (levels 1-3), gen_icf_map_h1_base and "
+                 "dictionary-primed heads (isal_deflate_hash) are NOT covered; head entries are assumed to be earlier positions of the stream",
                  "end-to-end dictionary round trips; the assembly match finders and isal_deflate_hash asm variants",
                  "streaming isal_deflate header path (write_stream_header) beyond the shared _zlib_header_in_buffer",
                  "hash tables larger than 64 entries in the hash_base harness (bounds of table[hash & mask] follow from the mask)"],
